@@ -302,6 +302,7 @@ let node_op tok : NodeSys.sop * (BinNums.coq_N * BinNums.coq_N) list =
     | "Z" -> NodeSys.SDropFrom (nz p.(1))
     | "K" -> NodeSys.SAlias (nz p.(1), nz p.(2))
     | "M" -> NodeSys.SMute (nz p.(1), p.(2) = "1")
+    | "Q" -> NodeSys.SSetClaims (nz p.(1), (if p.(2) = "-" then [] else parse_ranges (S.concat "/" (split '/' p.(2)))))
     | "A" -> NodeSys.SAll
     | "P" -> NodeSys.SIface (nz p.(1), unhex p.(2))
     | "O" -> NodeSys.SPopWrites (nz p.(1))
@@ -331,10 +332,11 @@ let node_dump (n : Node.node) =
       (int_of_n a, Printf.sprintf "%d:%s" (int_of_n a)
          (match c.PeerCrypto.pc_init with Some i -> Printf.sprintf "%d:%d" (int_of_n i.Conn.i_stage) (int_of_n i.Conn.i_retries) | None -> "-:0"))) n.n_pending) in
   let own = L.sort compare (L.map int_of_n n.n_own) in
-  Printf.sprintf "peers=[%s];pend=[%s];own=[%s];%s;np=%d;no=%d;drop=%d;inv=%d"
+  let rc = L.map (fun (e : Node.reconnect) -> Printf.sprintf "%d:%d:%d" (int_of_n e.rc_tries) (int_of_n e.rc_timeout) (int_of_z e.rc_next)) n.n_reconnect in
+  Printf.sprintf "peers=[%s];pend=[%s];own=[%s];%s;np=%d;no=%d;drop=%d;inv=%d;rc=[%s]"
     (S.concat "," (L.map snd peers)) (S.concat "," (L.map snd pend)) (S.concat "," (L.map string_of_int own))
     (table_dump n.n_table.Table.claims n.n_table.Table.cache) (int_of_z n.n_next_peers) (int_of_z n.n_next_own_reset)
-    (int_of_n n.n_dropped) (int_of_n n.n_invalid)
+    (int_of_n n.n_dropped) (int_of_n n.n_invalid) (S.concat "," rc)
 
 let node_out (dsts : int list ref) = function
   | NodeSys.SONone -> "-"
